@@ -22,6 +22,24 @@ def nullPacketLike : Packet :=
     header := { continuityCounter := 0, hasAdaptationField := false, hasPayload := true, payloadUnitStartIndicator := false,
                 pid := 0x1fff, transportErrorIndicator := false, transportPriority := false, transportScramblingControl := 0 } }
 
+/-! ### helper packets -/
+def nullPacket (cc : Nat) : Packet :=
+  { adaptationField := none, payload := List.replicate 184 0xff,
+    header := { continuityCounter := cc, hasAdaptationField := false, hasPayload := true, payloadUnitStartIndicator := false,
+                pid := 0x1fff, transportErrorIndicator := false, transportPriority := false, transportScramblingControl := 0 } }
+
+/-- adaptation-field-only packet of a PID (counter not incremented: same as the previous payload packet) -/
+def afOnlyPacket (pid cc : Nat) : Packet :=
+  { adaptationField := some (stuffAF 183), payload := [],
+    header := { continuityCounter := cc, hasAdaptationField := true, hasPayload := false, payloadUnitStartIndicator := false,
+                pid := pid, transportErrorIndicator := false, transportPriority := false, transportScramblingControl := 0 } }
+
+def teiPacket (pid : Nat) (junk : Bytes) : Packet :=
+  { adaptationField := none, payload := junk,
+    header := { continuityCounter := 9, hasAdaptationField := false, hasPayload := true, payloadUnitStartIndicator := true,
+                pid := pid, transportErrorIndicator := true, transportPriority := false, transportScramblingControl := 0 } }
+
+
 /-! ### C08 -/
 def runC08 (t : Tier) : Emit Unit := do
   for i in [0:(if t.quick then 6 else 30)] do
@@ -214,6 +232,31 @@ def runC19 (t : Tier) : Emit Unit := do
       if i < 3 then
         let c := demuxCase bs { view := .seq, packetAPI := true, skipper := sk } none none (tag ++ "-log")
         emit "C19" c
+    -- the same on a stream that also carries adaptation-field-only, null and transport-error packets
+    let mut out : List Packet := []
+    let mut lastCC : List (Nat × Nat) := []
+    for p in ps do
+      let k ← liftGen (randBelow 5)
+      if k = 0 then
+        match lastCC.find? (·.1 == p.header.pid) with
+        | some (_, cc) => out := out ++ [afOnlyPacket p.header.pid cc]
+        | none => out := out ++ [afOnlyPacket p.header.pid 7]
+      else if k = 1 then
+        let junk ← liftGen (randBytes 184)
+        out := out ++ [teiPacket p.header.pid junk]
+      else if k = 2 then out := out ++ [nullPacket 3]
+      out := out ++ [p]
+      lastCC := (lastCC.filter (·.1 != p.header.pid)) ++ [(p.header.pid, p.header.continuityCounter)]
+    let script2 ← liftGen (genList out.length (chance 1 3))
+    for (sk, tag) in [(SkipSpec.af, "mixed-skip-af"), (.script script2, "mixed-skip-script"), (.script (List.replicate out.length true), "mixed-skip-all"), (.pids somePids, "mixed-skip-pids")] do
+      let decide2 : Packet → Nat → Bool := fun p idx => match sk with
+        | .pids l => l.contains p.header.pid | .af => p.header.hasAdaptationField | .script ds => ds.getD idx false | _ => false
+      let kept := (out.zipIdx.filter fun (p, idx) => !decide2 p idx).map (·.1)
+      let refP := demuxCase (bytesOf kept) { view := .outcomes, packetAPI := true } none none "ref"
+      emit "C19" (demuxCase (bytesOf out) { view := .outcomes, packetAPI := true, skipper := sk } none (some refP.model) (tag ++ "-packets"))
+      let refD := demuxCase (bytesOf kept) { view := .perpid } none none "ref"
+      emit "C19" (demuxCase (bytesOf out) { view := .perpid, skipper := sk } none (some refD.model) tag)
+      emit "C19" (demuxCase (bytesOf out) { view := .seq, packetAPI := true, skipper := sk } none none (tag ++ "-log"))
     -- parsers: observer leaves the output unchanged; replacer substitutes exactly its data, once per unit
     let m2 ← liftGen (smallStream i false)
     let bs2 := m2.bytes
@@ -246,23 +289,43 @@ def runC20 (t : Tier) : Emit Unit := do
         emit "C20" (demuxCase bs { cfg with view := .seq } (some calls)
           (some ("|".intercalate (freshS.take 3 ++ ["rewind:0@0"] ++ freshS.take 2 ++ ["rewind:0@0", "rewind:0@0"] ++ freshS) ++ ";skip=[];parser=[];stable=true")) "rewind-repeated")
 
+/-- a long unit on the higher PID interleaved packet by packet with single-packet units on the lower PID: after k
+NextData calls the higher PID holds k-1 pending packets (more than 16: the continuity counter wraps) -/
+def interleavedLong (n : Nat) : Gen StreamModel := do
+  let big ← genPESUnit 0x101 100
+  let payload ← randBytes (184 * n - 40)
+  let h : PESHeader := { streamID := 0xe0, optionalHeader := some { markerBits := 2, ptsDTSIndicator := 2, pts := some { base := 5000, extension := 0 }, headerLength := 5 } }
+  let bytes := pesEncode h 0 payload
+  let chunks ← genRestChunks bytes.length
+  let bigU : TSUnit := { big with payload := bytes, chunks := List.replicate (bytes.length / 184) 184 ++ (if bytes.length % 184 = 0 then [] else [bytes.length % 184]),
+                                   firstAF := none, data := [{ pes := some { data := payload, header := h } }] }
+  let _ := chunks
+  let mut units : List TSUnit := [bigU]
+  for _ in [0:n + 2] do
+    let u ← genPESUnit 0x100 60
+    -- force single-packet units
+    units := units ++ [{ u with chunks := [u.payload.length], firstAF := none }]
+  let tail ← genPESUnit 0x101 100
+  units := units ++ [tail]
+  let sched := ((List.range (n + 4)).map fun _ => [0x100, 0x101]).flatten
+  return { units := units.filter (fun u => u.payload.length ≤ 184 || u.pid == 0x101), schedule := sched }
+
+def runC20long (t : Tier) : Emit Unit := do
+  for n in (if t.quick then [20] else [20, 35]) do
+    let m ← liftGen (interleavedLong n)
+    let bs := m.bytes
+    for api in [false, true] do
+      let cfg : DemuxCfg := { size := 188, packetAPI := api }
+      let total := callsToEOF (mkDemux bs cfg) api (bs.length / 188 + 8) 0
+      let (fresh, _) := runCalls (mkDemux bs cfg) api (List.replicate (total + 1) Call.next)
+      let freshS := fresh.map (·.show .seek)
+      for k in [0:total + 1] do
+        if api && k % 4 != 0 then continue
+        let calls := List.replicate k Call.next ++ [Call.rewind] ++ List.replicate (total + 1) Call.next
+        let spec := "|".intercalate (freshS.take k ++ ["rewind:0@0"] ++ freshS) ++ ";skip=[];parser=[];stable=true"
+        emit "C20" (demuxCase bs { cfg with view := .seq } (some calls) (some spec) "rewind-long-units")
+
 /-! ### C07 -/
-def nullPacket (cc : Nat) : Packet :=
-  { adaptationField := none, payload := List.replicate 184 0xff,
-    header := { continuityCounter := cc, hasAdaptationField := false, hasPayload := true, payloadUnitStartIndicator := false,
-                pid := 0x1fff, transportErrorIndicator := false, transportPriority := false, transportScramblingControl := 0 } }
-
-/-- adaptation-field-only packet of a PID (counter not incremented: same as the previous payload packet) -/
-def afOnlyPacket (pid cc : Nat) : Packet :=
-  { adaptationField := some (stuffAF 183), payload := [],
-    header := { continuityCounter := cc, hasAdaptationField := true, hasPayload := false, payloadUnitStartIndicator := false,
-                pid := pid, transportErrorIndicator := false, transportPriority := false, transportScramblingControl := 0 } }
-
-def teiPacket (pid : Nat) (junk : Bytes) : Packet :=
-  { adaptationField := none, payload := junk,
-    header := { continuityCounter := 9, hasAdaptationField := false, hasPayload := true, payloadUnitStartIndicator := true,
-                pid := pid, transportErrorIndicator := true, transportPriority := false, transportScramblingControl := 0 } }
-
 def runC07 (t : Tier) : Emit Unit := do
   for i in [0:(if t.quick then 8 else 40)] do
     let m ← liftGen (smallStream i)
